@@ -271,8 +271,9 @@ pub(crate) fn parse_included_files<P: AsRef<Path>>(
         .statements()
         .filter_map(|parse_stmt| match parse_stmt {
             synast::Stmt::Include(include) => {
-                let file: synast::FilePath = include.file().unwrap();
-                let file_path = file.to_string().unwrap();
+                // If the path is missing (a syntax error) or malformed (eg. an invalid escape
+                // sequence), there is nothing to read. This is reported during semantic analysis.
+                let file_path = include.file().and_then(|file| file.to_string())?;
                 // stdgates.inc will be handled "as if" it really existed.
                 if file_path == "stdgates.inc" {
                     None
